@@ -41,7 +41,7 @@ class RefOff(Exception):
 
 def new_state():
     return {
-        "tok": [],  # [task, lineage, ctx|None, attempt, is_retry, src_task|None, optional]
+        "tok": [],  # [task, lineage, ctx|None, attempt, is_retry, src_task|None, optional, cleanup]
         "run": [],  # [task, lineage, ctx, attempt, items_state|None]
         "arr": {},  # lkey(join, lineage) -> {"from": [[task, ctx], ...], "fired": n, "pending": bool}
         "execs": {},  # lkey -> number of executions started (attempts of one visit count once)
@@ -320,7 +320,7 @@ class Ref(object):
                         g["tok"].append([tgt, lineage, None, 0, False, task, False])
                 else:
                     nl = self.child_lineage(lineage, task, tidx, tgt)
-                    g["tok"].append([tgt, nl, new_ctx, 0, False, task, False])
+                    g["tok"].append([tgt, nl, new_ctx, 0, False, task, False, "fail" in tr["do"]])
                     info["targets"].append([tgt, nl, "token"])
         info["handled"] = handled
         g["last"][lkey(task, lineage)] = [ctx, status]
@@ -352,6 +352,10 @@ class Ref(object):
     # ------------------------------------------------------------ end of run
     def pending_unconsumed(self, g):
         return [[t[0], t[1]] for t in g["tok"] if not (len(t) > 6 and t[6])]
+
+    def pending_cleanup(self, g):
+        """Due executions of tasks listed beside a satisfied fail command (documented to run after the failure)."""
+        return [[t[0], t[1]] for t in g["tok"] if len(t) > 7 and t[7]]
 
     def partial_joins(self, g):
         """Joins with >=1 arrival, below requirement, never fired."""
